@@ -237,6 +237,17 @@ func genCases(seed uint64, n int, thorough bool) []Case {
 		add(Case{Stream: "corpus", Op: "abs", P: "pkg/sub", F: f})
 	}
 
+	// the two ways in which Match's greedy chunk loop misses a declarative match
+	// (Caco/MatchComplete.v: match_class_incomplete_refuted,
+	// match_wide_rune_incomplete_refuted): a class takes the '/', "??" takes a
+	// four-byte rune and the next byte; and neighbours that do match
+	for _, ps := range [][2]string{{"*[^a]*b", "x/b"}, {"*[^a]*b", "xyb"}, {"*[^a]/*b", "x/b"},
+		{"*??*X", "\U00010000X"}, {"*??*X", "abcdX"}, {"*?*X", "\U00010000X"}, {"*??*X", "\U00010000aX"},
+		{"*a/*/b?", "xa/yy/bz"}, {"*a/*/b?", "xa/y/y/bz"}, {"*a*a", "aaa/a"}, {"*a/a*a/a", "a/a/a/a"}} {
+		add(Case{Stream: "corpus", Op: "match", Hex: true, Pat: hex.EncodeToString([]byte(ps[0])),
+			S: hex.EncodeToString([]byte(ps[1]))})
+	}
+
 	// path.Clean: every string over {a,b,.,/} up to a length bound.
 	cleanLen := 7
 	if thorough {
